@@ -1,8 +1,8 @@
 """U-PSPAN4 (C13) - fourth sister unit of U-PSPAN: parse_function_body, parse_member, parse_parameter, parse_struct_members,
 parse_rest_of_function_signature, parse_word_declaration, parse_struct_declaration, parse_constant_declaration,
-parse_function_declaration, skip_until_next_declaration and can_start_declaration of src/alpha/parser.rs (and Statement::location of common.rs) VERIFIED under the span contract (contracts/u_pspan.vc for
+parse_function_declaration, parse_import, parse_quoted_path, parse_declaration, skip_until_next_declaration and can_start_declaration of src/alpha/parser.rs (and Statement::location of common.rs) VERIFIED under the span contract (contracts/u_pspan.vc for
 the cursor and the sister functions, contracts/u_pspan4.vc and spec/u_pspan4_spec.rs for these); the nineteen parse functions of the sister units are
-external with the contract text that U-PSPAN / U-PSPAN2 / U-PSPAN3 prove.  Rules PS3 (`?` into Poison written out), PS4 (map_err(|e| e.into()) written out), PS5 (unwrap_or_else(|| E) written out)."""
+external with the contract text that U-PSPAN / U-PSPAN2 / U-PSPAN3 prove.  Rules PS3 (`?` into Poison written out), PS4 (map_err(|e| e.into()) written out), PS5 (unwrap_or_else(|| E) written out), PS6 (String::from_utf8 through a trusted wrapper)."""
 import os
 from units import u_pspan
 from vlib import rules
@@ -34,4 +34,5 @@ def types(u):
 def build(u):
     u_pspan.build_with(u, (), extra=('parse_function_body', 'parse_member', 'parse_parameter', 'parse_struct_members', 'parse_rest_of_function_signature',
                               'parse_word_declaration', 'parse_constant_declaration', 'parse_struct_declaration',
-                              'can_start_declaration', 'skip_until_next_declaration', 'parse_function_declaration'), extra_types=types, extra_rules=[rules.only_for(['fn parse_function_body'], PR.ps3_question_into_poison), PR.ps4_map_err_into, PR.ps5_unwrap_or_else])
+                              'can_start_declaration', 'skip_until_next_declaration', 'parse_function_declaration',
+                              'parse_quoted_path', 'parse_import', 'parse_declaration'), extra_types=types, extra_rules=[rules.only_for(['fn parse_function_body'], PR.ps3_question_into_poison), PR.ps4_map_err_into, PR.ps5_unwrap_or_else, PR.ps6_from_utf8])
